@@ -641,14 +641,20 @@ def c16(rng, tier, repo):
                 if isinstance(pth, (str, bytes, os.PathLike)) and os.path.realpath(os.fspath(pth)) == _vp:
                     return bump(st)
                 return st
-            for mode in ('verify', 'update'):
+            modes = ['verify', 'update']
+            if not os.path.isdir(vp):
+                # the single-path APIs of the loader, asked about the file itself
+                modes += ['verify_path', 'assert_path_verifies', 'update_entry_for_path']
+            for mode in modes:
                 os.stat, os.fstat = fstat_path, fstat
                 try:
                     m = ManifestRecursiveLoader(os.path.join(root, 'Manifest'), hashes=['SHA1'], allow_xdev=False)
                     if mode == 'verify':
                         m.assert_directory_verifies('')
-                    else:
+                    elif mode == 'update':
                         m.update_entries_for_directory('')
+                    else:
+                        getattr(m, mode)(victim)
                     got = 'ok'
                 except ManifestCrossDevice:
                     got = 'xdev'
